@@ -145,3 +145,7 @@ func (c *Contributor) PostProcessDefinitionRegistry(registry container.Definitio
 	}
 	return nil
 }
+
+// Mark is the struct type of custom-tagged anonymous fields (a tagged anonymous struct field
+// is a field to hand to the tag's scanner, not an embedded carrier).
+type Mark struct{ M int }
